@@ -47,9 +47,9 @@ def _stub_bath(cx, sbi, nb, T):
 
 
 @harness("C06", "redfield_rate_matrix",
-         quick=[dict(N=3)], thorough=[dict(N=3), dict(N=4)],
+         quick=[dict(N=3)], thorough=[dict(N=3)],
          functions=[F_RR + ":RedfieldRateMatrix._set_rates", F_PY + ":ssRedfieldRateMatrix"],
-         bound="ground state + 2 (thorough 3) sites with site-projector system-bath operators; Hamiltonian given by "
+         bound="ground state + 2 sites (3 sites: the branch combinations of the cut-off and uphill tests exceed the time budget) with site-projector system-bath operators; Hamiltonian given by "
                "its eigen-decomposition (block-diagonal rotation, ground state decoupled), T>0, the bath's "
                "Fourier-transformed correlation function an uninterpreted non-negative function of frequency; all "
                "branches of the frequency cut-off and of the uphill/downhill test explored",
